@@ -9,6 +9,7 @@ pub enum Scenario {
     Rt(crate::fam_rt::RtScn),
     HistW(crate::fam_histw::HwScn),
     FakeOffer(crate::fam_histw::FakeOfferScn),
+    UserShape(crate::fam_histw::UserShapeScn),
     Crash(crate::fam_crash::CrashScn),
     CrashPath(crate::fam_crash::CrashPathScn),
     WFault(crate::fam_wfault::WfScn),
@@ -26,6 +27,7 @@ impl Scenario {
             Scenario::Rt(_) => "RT",
             Scenario::HistW(_) => "HIST-W",
             Scenario::FakeOffer(_) => "HIST-W-USER-SHAPE",
+            Scenario::UserShape(_) => "HIST-W-USER-SHAPE",
             Scenario::Crash(_) => "CRASH",
             Scenario::CrashPath(_) => "CRASH-PATH",
             Scenario::WFault(_) => "WFAULT",
@@ -45,6 +47,7 @@ pub fn execute(s: &Scenario, ctx: &mut Ctx) {
         Scenario::Rt(x) => crate::fam_rt::execute(x, ctx),
         Scenario::HistW(x) => crate::fam_histw::execute(x, ctx),
         Scenario::FakeOffer(x) => crate::fam_histw::execute_fake(x, ctx),
+        Scenario::UserShape(x) => crate::fam_histw::execute_user(x, ctx),
         Scenario::Crash(x) => crate::fam_crash::execute(x, ctx),
         Scenario::CrashPath(x) => crate::fam_crash::execute_path(x, ctx),
         Scenario::WFault(x) => crate::fam_wfault::execute(x, ctx),
